@@ -1,7 +1,12 @@
-(* C02 / C13 — the specific classes of blocks on which the pinned code violates the
-   properties (each reproduced on the real node, see known_findings.txt), as decidable
-   predicates over the model, and the invariant of states under which the theorems are
-   stated.  Definitions only. *)
+(* C02 / C13 — the classes of blocks the theorems do not cover, as decidable predicates over
+   the model, and the invariant of states under which the theorems are stated.  Definitions
+   only.  At /repo 92b2ed5 every defect that was found in these classes is repaired (fee
+   transaction omitted, zero-key golden ticket, uncounted Bound/BlockStake fees, input older
+   than the window, rebroadcast input elsewhere, block id jump, 5 % cap branch, stray Bound
+   output, SPV transaction with a valued input, saturating payout product); what remains
+   below are limits of the proofs' scope, not known defects: the NFT (Bound) shapes are
+   decided inside Transaction::validate, which is the oracle field t_ok here (property C01
+   models it), and they are exercised by the harness only. *)
 From Saito Require Import Base CV Supply.
 
 Section Classes.
@@ -18,14 +23,15 @@ Section Classes.
   Definition the_input (st : state) (b : block) : cv_in :=
     cv_input cf st (new_id b) (h_ts (b_hdr b)) (h_treasury (b_hdr b)) (b_txs b) (b_bf_calc b) (b_orc b).
 
-  (* --- C02: transaction kinds whose fee is counted in no reservoir, NFT slips --- *)
+  (* --- scope: Bound (NFT) slips and SPV placeholders inside the block.  Well-formed NFT
+         transactions conserve the supply (exercised by the harness against the real node);
+         the theorems are stated for blocks without them --- *)
   Definition plain_tx (t : tx) : bool :=
-    ((t_ty t =? TNormal) || (t_ty t =? TGolden) || (t_ty t =? TATR) || (t_ty t =? TFee)) &&
-    forallb (fun s => negb (is_bound s)) (t_from t ++ t_to t).
-  (* a BlockStake / Bound / Vip / SPV transaction, or a Bound (NFT) slip *)
-  Definition Known_C02_special_tx (b : block) : bool := negb (forallb plain_tx (b_txs b)).
+    negb (t_ty t =? TSPV) && forallb (fun s => negb (is_bound s)) (t_from t ++ t_to t).
+  Definition Known_C02_bound_or_spv (b : block) : bool := negb (forallb plain_tx (b_txs b)).
 
-  (* --- C02 / C13: the block leaving the window carries Bound (NFT) outputs --- *)
+  (* --- scope: the block leaving the window carries Bound (NFT) outputs (the grouping of
+         the ATR section into triples is modelled and replayed, but not inside the theorems) --- *)
   Definition expiring_txs (st : state) (b : block) : list tx :=
     if gp + 1 <? new_id b then
       match block_at st (new_id b - (gp + 1)) with Some e => b_txs e | None => [] end
@@ -33,63 +39,19 @@ Section Classes.
   Definition Known_C02_nft_expiring (st : state) (b : block) : bool :=
     negb (forallb (fun t => forallb (fun s => negb (is_bound s)) (t_to t)) (expiring_txs st b)).
 
-  (* --- C02: the 5 % cap branch --- *)
-  Definition Known_C02_cap_branch (st : state) (b : block) : bool :=
-    match cv_inf st b with
-    | Ok c => c_cap c
-    | _ => false
-    end.
-
-  (* --- C02: golden ticket present, payout due, fee transaction left out --- *)
-  Definition Known_C02_fee_tx_omitted (st : state) (b : block) : bool :=
-    match cv_inf st b with
-    | Ok c => match c_fee_tx c with
-              | Some f => (0 <? sumN (map s_amt (t_to f))) && (c_ft_num c =? 0)
-              | None => false
-              end
-    | _ => false
-    end.
-
-  (* --- C02: golden ticket naming the all-zero key while a miner share is due --- *)
-  Definition Known_C02_zero_miner (st : state) (b : block) : bool :=
-    match cv_inf st b with
-    | Ok c => (o_miner (b_orc b) =? 0) && (0 <? c_pay_mining c)
-    | _ => false
-    end.
-
-  (* --- C02 / C13: an input older than the window (nothing checks the age of an input),
-         or a rebroadcast whose input is not the output that left the window --- *)
-  Definition in_new_window (b : block) (s : slip) : bool := (new_id b - gp) <=? s_bid s.
-  Definition Known_C13_expired_input (b : block) : bool :=
-    existsb (fun t => negb (t_ty t =? TATR) && negb (t_ty t =? TFee) &&
-                      existsb (fun s => (0 <? s_amt s) && negb (in_new_window b s)) (t_from t)) (b_txs b).
-  Definition Known_C13_rebroadcast_input_elsewhere (b : block) : bool :=
-    existsb (fun t => (t_ty t =? TATR) &&
-                      existsb (fun s => (0 <? s_amt s) && in_new_window b s) (t_from t)) (b_txs b).
-
-  (* the rebroadcast transactions of the block name exactly the outputs that left the window
-     (the hash binds key, amount, slip index and type of an input, not its location) *)
-  Definition Known_C13_rebroadcast_input_substituted (st : state) (b : block) : bool :=
-    match cv_inf st b with
-    | Ok c => negb (eqb_list (eqb_list slip_eqb) (map t_from (c_rb_hash c)) (map t_from (block_atrs (b_txs b))))
-    | _ => false
-    end.
-
-  (* --- block ids are not checked against the parent's --- *)
-  Definition Known_C13_id_jump (st : state) (b : block) : bool := negb (new_id b =? tip_id st + 1).
-
-  (* --- C02: 64-bit effects: a saturated input/output sum, or a block that validates in u64
-         arithmetic but not in unbounded arithmetic --- *)
+  (* --- 64-bit effects: a saturated input/output sum (sums of 2^64 or more); and, because the
+         float function is left abstract, a 5 % limit of 2^64-1 or more (the real
+         (x as f64 * 0.05) as u64 of a u64 is below 2^60) --- *)
   Definition fits (t : tx) : bool :=
     (sumN (map s_amt (t_from t)) <? two64) && (sumN (map s_amt (t_to t)) <? two64).
-  Definition Known_C02_saturated (b : block) : bool := negb (forallb fits (b_txs b)).
+  Definition parent_treasury (st : state) : N :=
+    match parent_of st with Some p => h_treasury (b_hdr p) | None => 0 end.
+  Definition Known_C02_saturated (st : state) (b : block) : bool :=
+    negb (forallb fits (b_txs b) && (cap05 (parent_treasury st) <? U64MAX)).
 
   Definition clean (st : state) (b : block) : bool :=
-    negb (Known_C02_special_tx b) && negb (Known_C02_nft_expiring st b) &&
-    negb (Known_C02_cap_branch st b) && negb (Known_C02_fee_tx_omitted st b) &&
-    negb (Known_C02_zero_miner st b) && negb (Known_C13_expired_input b) &&
-    negb (Known_C13_rebroadcast_input_elsewhere b) && negb (Known_C13_id_jump st b) &&
-    negb (Known_C02_saturated b).
+    negb (Known_C02_bound_or_spv b) && negb (Known_C02_nft_expiring st b) &&
+    negb (Known_C02_saturated st b).
 End Classes.
 
 (* ---------- invariant of the ledger state ---------- *)
